@@ -178,6 +178,13 @@ func (c *Crew) SetMachine(ctx context.Context, mid string, src *crew.SpecSource,
 		}
 
 		c.Machines[mid] = m
+		if ch, pending := c.changed[mid]; pending && ch.Deleted {
+			// Deleted and created again before the changes
+			// were collected: the machine is not deleted
+			// (any more), and its new state is what counts.
+			ch.Deleted = false
+			ch.State = m.State
+		}
 	} else if state != nil {
 		m.State = DefaultState(state)
 	}
